@@ -53,6 +53,7 @@ func TestVerifC10(t *testing.T) {
 	for _, l := range vfutil.Corpus("C10") {
 		e.RunLine(l)
 	}
+	e.RunGolden()
 	// every slot against adversarial range sets (nested, overlapping, same
 	// left bound, adjacent, single-slot, reversed, malformed)
 	sweeps := []vfc10.Cfg{
@@ -62,5 +63,5 @@ func TestVerifC10(t *testing.T) {
 		{SW: [][]uint16{{9, 3}}, SB: [][]uint16{{16000, 65535}, {0}}},
 	}
 	e.SlotSweep(sweeps, vfutil.Scale(7, 1))
-	e.RunGenerated(r, vfutil.Scale(800, 8000), 40, 60)
+	e.RunGenerated(r, vfutil.Scale(800, 20000), 40, 60)
 }
